@@ -199,7 +199,16 @@ def run_reference(case, ctx):
     _labels(ctx, case, F, Q, dt)
     ctx.label(f'store={how}')
     snapF, snapQ = np.array(Fs, copy=True), np.array(Qs, copy=True)
-    Phi, Qd = ctx.sut(kalman.compute_process_matrices, Fs, Qs, dt)
+    # the step in the forms a caller has it in: a Python int for whole seconds (dt = 0, 1, 2, 5, 10 are in the grid), a
+    # numpy scalar (difference of two stamps) or a 0-d array; the value is the same
+    dt_arg = dt
+    form = case['sub'] % 4
+    if float(dt).is_integer() and form in (1, 2):
+        dt_arg = int(dt) if form == 1 else np.int64(dt)
+    elif form == 3:
+        dt_arg = np.float64(dt) if case['sub'] % 8 == 3 else np.asarray(dt)
+    ctx.label('dt_form=' + type(dt_arg).__name__)
+    Phi, Qd = ctx.sut(kalman.compute_process_matrices, Fs, Qs, dt_arg)
     ctx.check(np.array_equal(np.asarray(Fs), snapF) and np.array_equal(np.asarray(Qs), snapQ), 'input_modified', 'F or Q changed')
     ctx.check(Phi.shape == (n, n) and Qd.shape == (n, n), 'shape', f'{Phi.shape} {Qd.shape}')
     if dt == 0:
